@@ -1056,6 +1056,13 @@ def prune_tail(Rm, g, kind):
                     t = T[q2][kc]
                     if t in co:
                         nxt.append((q1, t, 1, False))       # competitor closes g now, m later
+                if ph == 1:
+                    # the competitor, having closed g, goes on with its own markers (it may open and close later groups
+                    # while m is still inside g)
+                    for k in range(nM):
+                        t = T[q2][nA + k]
+                        if t in co and nA + k != kc:
+                            nxt.append((q1, t, 1, gap))
                 if ph == 2:
                     for k in range(nM):
                         t = T[q2][nA + k]
